@@ -19,7 +19,7 @@ LEVEL_TEXT = {
  'C12': ('fault_enumeration', 'The real nsync_semaphore_futex.c on a modelled futex with a generated vector of injected EINTR / EAGAIN / early-ETIMEDOUT / spurious-0 returns and generated schedules at the granularity of its atomics and futex calls; token accounting.', '6.12'),
  'C13': ('exploration', 'Arena and fiber-stack lifetime tracking: any access to a freed block or to a dead part of another thread\'s stack by nsync code is a violation; reference-count programs, and wakers racing nsync_wait_n / cancellable waits.', '6.13'),
  'C14': ('exploration', 'Adversarial scheduling policy (victim runs only while a barger holds the mutex) with generated perturbations, plus random / PCT schedules; the number of times the victim goes back to sleep in one lock call is bounded by 31+2T+2.', '6.14'),
- 'C15': ('exploration', 'Real libnsync.a / libnsync_cpp.a rebuilt by cmake from the working tree; exhaustive boundary grid of deadlines x 9 timed entry points x 2 libraries plus rapidcheck random deadlines, one child process per case with a watchdog.', '6.15'),
+ 'C15': ('exploration', 'Real libnsync.a / libnsync_cpp.a rebuilt by cmake from the working tree; exhaustive boundary grid of deadlines x 9 timed entry points x 2 libraries (C++ build also through the time_point overloads) plus rapidcheck random deadlines, one child process per case with a watchdog.', '6.15'),
  'C16': ('exploration', 'C01/C02/C04 oracles with debug-state callers added to generated LOCK/MON programs; and for frozen mutex/cv states with 0..3 queued waiters every buffer size 0..80 (exhaustive) with canaries and the output(n) vs output(1024) relation.', '6.16'),
  'C17': ('exploration', 'Exhaustive enumeration of the reachable model-state graph (5 elements, 2 lists) executing every legal operation on the real dll.c against an array model; rapidcheck sequences and a libFuzzer target over 8 elements / 3 lists; ASan+UBSan.', '6.17'),
  'C18': ('exploration', 'Exhaustive boundary grid and rapidcheck / libFuzzer generated normalized pairs against 128-bit integer arithmetic, for the C file and the C++ file linked into one binary; UBSan.', '6.18'),
